@@ -125,6 +125,19 @@ def main():
     if not mv:
         raise TranslateError(f"VARS_STACK_START = {vss}: expected MAX_VARS / k")
 
+    # ---- memory layout used by the field lookups and the matching-rules bitmap
+    vse = const_i32(wasm, "VARS_STACK_END")
+    if not re.fullmatch(r"VARS_STACK_START\s*\+\s*MAX_VARS\s*\*\s*8", vse):
+        raise TranslateError(f"VARS_STACK_END = {vse}: expected VARS_STACK_START + MAX_VARS * 8")
+    if const_i32(wasm, "LOOKUP_INDEXES_START") != "VARS_STACK_END":
+        raise TranslateError("LOOKUP_INDEXES_START is not VARS_STACK_END")
+    lie = const_i32(wasm, "LOOKUP_INDEXES_END")
+    ml = re.fullmatch(r"LOOKUP_INDEXES_START\s*\+\s*(\d+)", lie)
+    if not ml:
+        raise TranslateError(f"LOOKUP_INDEXES_END = {lie}: expected LOOKUP_INDEXES_START + k")
+    if const_i32(wasm, "MATCHING_RULES_BITMAP_BASE") != "LOOKUP_INDEXES_END":
+        raise TranslateError("MATCHING_RULES_BITMAP_BASE is not LOOKUP_INDEXES_END")
+
     # ---- the pattern-search check
     lazy = fn_body(emit, "emit_lazy_call_to_search_for_patterns")
     unconditional = bool(re.match(r"\s*instr\.global_get\(ctx\.wasm_symbols\.pattern_search_done\)\s*;\s*instr\.if_else\(", lazy))
@@ -190,6 +203,8 @@ Definition flag_index_rem : Z := {flag_rem}.
 Definition var_slot_bytes : Z := 8.
 Definition max_vars : Z := {max_vars}.
 Definition vars_stack_start : Z := max_vars / {mv.group(1)}.
+Definition lookup_indexes_start : Z := vars_stack_start + max_vars * 8.
+Definition matching_rules_bitmap_base : Z := lookup_indexes_start + {ml.group(1)}.
 
 (* the check of pattern_search_done is emitted unconditionally, and first, by every pattern operation *)
 Definition search_check_unconditional : bool := {cb(unconditional)}.
